@@ -62,6 +62,9 @@ pub enum MProp {
     Val(ValSpec),
     /// Target node (may be dead), dangling value, or null.
     Ref(RefT),
+    /// Ref that may point at any of several copies (the target was cloned more
+    /// than once in one clone_multiple call); resolved from the real DOM.
+    RefAny(Vec<NodeId>),
     Uid(u32, u32, i64),
 }
 
@@ -180,14 +183,19 @@ impl Model {
     }
 
     /// Clones subtrees rooted at `roots` (pre-order ids from `base`) into `dest`.
+    /// Roots may overlap (one inside another, or the same twice): every root
+    /// still yields its own isomorphic copy; a Ref to an instance that was
+    /// copied more than once may point at any of its copies.
     fn clone_subtrees(&mut self, roots: &[NodeId], dest: usize, base: NodeId, eff: &mut Effect) {
-        let mut map: BTreeMap<NodeId, NodeId> = BTreeMap::new();
+        let mut multi: BTreeMap<NodeId, Vec<NodeId>> = BTreeMap::new();
         let mut next = 0u32;
         let mut all_new = Vec::new();
         for &r in roots {
             let order = self.subtree(r);
+            let mut map: BTreeMap<NodeId, NodeId> = BTreeMap::new();
             for &o in &order {
                 map.insert(o, base + next);
+                multi.entry(o).or_default().push(base + next);
                 next += 1;
             }
             for &o in &order {
@@ -207,20 +215,24 @@ impl Model {
             for k in keys {
                 let cur = self.nodes[&n].props[&k].clone();
                 if let MProp::Ref(t) = cur {
-                    let new_t = match t {
+                    let new_p = match t {
                         RefT::Node(x) => {
-                            if let Some(m) = map.get(&x) {
-                                RefT::Node(*m)
+                            if let Some(copies) = multi.get(&x) {
+                                if copies.len() == 1 {
+                                    MProp::Ref(RefT::Node(copies[0]))
+                                } else {
+                                    MProp::RefAny(copies.clone())
+                                }
                             } else if self.nodes.get(&x).map(|nn| nn.dom == dest).unwrap_or(false) {
-                                RefT::Node(x)
+                                MProp::Ref(RefT::Node(x))
                             } else {
-                                RefT::Null
+                                MProp::Ref(RefT::Null)
                             }
                         }
-                        RefT::Dangling(_) => RefT::Null,
-                        RefT::Null => RefT::Null,
+                        RefT::Dangling(_) => MProp::Ref(RefT::Null),
+                        RefT::Null => MProp::Ref(RefT::Null),
                     };
-                    self.nodes.get_mut(&n).unwrap().props.insert(k, MProp::Ref(new_t));
+                    self.nodes.get_mut(&n).unwrap().props.insert(k, new_p);
                 }
             }
         }
@@ -327,12 +339,7 @@ impl Model {
                         return None;
                     }
                     total += self.subtree(*n).len();
-                    // distinct, non-overlapping
-                    for (j, m) in nodes.iter().enumerate() {
-                        if i != j && (self.is_in_subtree(*m, *n) || m == n) {
-                            return None;
-                        }
-                    }
+                    let _ = i;
                 }
                 if total >= ID_STRIDE as usize {
                     return None;
@@ -585,9 +592,10 @@ impl DomSim {
                     let src = model.nodes[&first].dom;
                     let cands: Vec<NodeId> = model.dom_nodes(src);
                     let mut nodes = vec![first];
+                    let allow_overlap = r.chance(1, 4);
                     for _ in 0..r.below(3) {
                         let c = *r.pick(&cands);
-                        if nodes.iter().all(|m| !model.is_in_subtree(*m, c) && !model.is_in_subtree(c, *m)) {
+                        if allow_overlap || nodes.iter().all(|m| !model.is_in_subtree(*m, c) && !model.is_in_subtree(c, *m)) {
                             nodes.push(c);
                         }
                     }
@@ -672,8 +680,39 @@ impl DomSim {
             MProp::Val(v) => spec::canon_variant(&mut s, &spec::value_of(v, &|t| DomSim::resolve(world, t)), &rmap),
             MProp::Ref(t) => spec::canon_variant(&mut s, &Variant::Ref(DomSim::resolve(world, t)), &rmap),
             MProp::Uid(a, b, c) => spec::canon_variant(&mut s, &Variant::UniqueId(UniqueId::new(*a, *b, *c)), &rmap),
+            MProp::RefAny(list) => {
+                s.push_str("ref:<any copy of the multiply-cloned target: ");
+                for id in list {
+                    s.push_str(&world.ref_of.get(id).map(|r| r.to_string()).unwrap_or_default());
+                    s.push(' ');
+                }
+                s.push('>');
+            }
         }
         s
+    }
+
+    /// After a clone, a Ref whose target was copied several times is pinned to
+    /// whichever copy the real DOM chose (if it chose one of them).
+    fn resolve_ref_any(world: &mut World, created: &[NodeId]) {
+        for id in created {
+            let dom = world.model.nodes[id].dom;
+            let r = world.ref_of[id];
+            let keys: Vec<String> = world.model.nodes[id].props.iter().filter(|(_, p)| matches!(p, MProp::RefAny(_))).map(|(k, _)| k.clone()).collect();
+            for k in keys {
+                let cands = match &world.model.nodes[id].props[&k] {
+                    MProp::RefAny(c) => c.clone(),
+                    _ => continue,
+                };
+                let real = world.doms[dom].get_by_ref(r).and_then(|i| i.properties.get(&rbx_dom_weak::ustr(&k)).cloned());
+                if let Some(Variant::Ref(actual)) = real {
+                    if let Some(hit) = cands.iter().find(|c| world.ref_of.get(c) == Some(&actual)) {
+                        let hit = *hit;
+                        world.model.nodes.get_mut(id).unwrap().props.insert(k, MProp::Ref(RefT::Node(hit)));
+                    }
+                }
+            }
+        }
     }
 
     fn real_prop_text(v: &Variant) -> String {
@@ -1117,7 +1156,8 @@ impl DomSim {
 
             // ---- model step ----
             world.model = probe;
-            let origin_of = |d: usize| world.model.origin[d].clone();
+            let origins: Vec<String> = world.model.origin.clone();
+            let origin_of = |d: usize| origins[d].clone();
 
             // Bind referents of clones by parallel traversal; C11 oracle.
             if !eff.clone_roots.is_empty() {
@@ -1166,6 +1206,7 @@ impl DomSim {
                     let r = world.ref_of[id];
                     world.seen_refs.insert(ref_key(r));
                 }
+                Self::resolve_ref_any(&mut world, &eff.created);
                 if prop == "C11" {
                     for root_ref in &returned {
                         if world.doms[dest].get_by_ref(*root_ref).map(|i| i.parent().is_some()).unwrap_or(false) {
@@ -1205,6 +1246,7 @@ impl DomSim {
                                     MProp::Ref(RefT::Null) => "clone|ref-should-be-null",
                                     MProp::Ref(RefT::Node(x)) if eff.created.contains(x) => "clone|ref-into-cloned-set-not-rewritten",
                                     MProp::Ref(_) => "clone|ref-to-instance-in-destination-not-kept",
+                                    MProp::RefAny(_) => "clone|ref-into-cloned-set-not-rewritten",
                                     _ => "clone|property-value-differs",
                                 };
                                 ctx.violate(what, format!("{}: property {} of the copy of {} is {} but should be {}", kind_name(&op.kind), k, m.name, a, b));
